@@ -537,6 +537,8 @@ pub enum Fault {
     UnterminatedQuote,
     OutOfRange(u8),
     NonAscii(u8),
+    /// a value that is not `true` / `false` for a boolean key
+    BadBool(u8),
 }
 
 fn fault_name(f: &Fault) -> &'static str {
@@ -551,6 +553,7 @@ fn fault_name(f: &Fault) -> &'static str {
         Fault::UnterminatedQuote => "unterminated-quote",
         Fault::OutOfRange(_) => "out-of-range",
         Fault::NonAscii(_) => "non-ascii",
+        Fault::BadBool(_) => "bad-boolean",
     }
 }
 
@@ -588,6 +591,7 @@ fn apply_fault(r: &mut Rendered, fault: &Fault, pick: u64) -> Option<Expect> {
                 (Fault::UnterminatedQuote, LineKind::Kv { value, .. }) => value.starts_with('"'),
                 (Fault::OutOfRange(_), LineKind::Kv { key, value }) => (key == "port" || key == "threads") && value.parse::<i64>().is_ok(),
                 (Fault::NonAscii(_), k) => !matches!(k, LineKind::Other),
+                (Fault::BadBool(_), LineKind::Kv { key, value }) => key == "console" && (value == "true" || value == "false"),
                 _ => false,
             };
             // keys inside noise sections (tls/plugins/zzz) look like real keys but are not validated: skip them
@@ -657,6 +661,14 @@ fn apply_fault(r: &mut Rendered, fault: &Fault, pick: u64) -> Option<Expect> {
                 return Some(Expect::SyntaxAt(fi, li + 1));
             }
             None
+        }
+        Fault::BadBool(v) => {
+            let bad = ["1", "0", "\"yes\"", "\"TRUE\"", "2K", "\"on\"", "\"False\"", "-1"][*v as usize % 8];
+            r.files[fi].1[li].text = format!("{}{} {}", indent, key_of(&line), bad);
+            if in_noise {
+                return None;
+            }
+            Some(Expect::Reject)
         }
         Fault::OutOfRange(v) => {
             let k = key_of(&line);
@@ -901,6 +913,7 @@ fn arb_fault() -> impl Strategy<Value = Fault> {
         1 => Just(Fault::UnterminatedQuote),
         1 => any::<u8>().prop_map(Fault::OutOfRange),
         3 => any::<u8>().prop_map(Fault::NonAscii),
+        1 => any::<u8>().prop_map(Fault::BadBool),
     ]
 }
 
